@@ -175,7 +175,8 @@ def installed_app(sbx: "Sandbox"):
 
 
 @contextmanager
-def configured(cfg: Dict[str, Any], roots: List[Path], as_path: bool = False, last_is_app: bool = False):
+def configured(cfg: Dict[str, Any], roots: List[Path], as_path: bool = False, last_is_app: bool = False,
+               as_instance: bool = False):
     """COMPONENTS for one abstract configuration (settings are read lazily by app_settings)."""
     from django.conf import settings
     from django.contrib.staticfiles import finders as sf
@@ -187,7 +188,13 @@ def configured(cfg: Dict[str, Any], roots: List[Path], as_path: bool = False, la
                         ("fo", "forbidden_static_files")):
         if cfg[field]["set"]:
             comp[name] = [_py_pat(p) for p in cfg[field]["pats"]]
-    settings.COMPONENTS = comp
+    # the setting may be given as a dict or as a ComponentsSettings instance (documented as equivalent; the
+    # specification does not depend on the form)
+    if as_instance:
+        from django_components import ComponentsSettings
+        settings.COMPONENTS = ComponentsSettings(**comp)
+    else:
+        settings.COMPONENTS = comp
     settings.STATICFILES_FINDERS = ["django_components.finders.ComponentsFileSystemFinder"]
     sf.get_finder.cache_clear()
     try:
@@ -290,7 +297,7 @@ def replay_tree_row(chk: Check, row: Dict[str, Any], sbx: Sandbox, serve: bool =
     files = row["files"]
     sbx.sync((0, f["p"]) for f in files)
     case = {"kind": "tree", "row": row}
-    with configured(row["cfg"], sbx.roots, as_path=row["cid"] % 2 == 1):
+    with configured(row["cfg"], sbx.roots, as_path=row["cid"] % 2 == 1, as_instance=row["cid"] % 3 == 2):
         finder = ComponentsFileSystemFinder()
         listed = obs_list(finder, sbx)
         lset = [p for _, p in listed]
@@ -400,7 +407,7 @@ def model_check_configs(chk: Check, max_a: int, max_f: int, dirs: List[int], ser
         exp = set(row["exp"])
         dev = {d["p"]: d for d in row["dev"]}
         case = {"kind": "config", "cfg": row["cfg"]}      # + file, expectation (added per failing path)
-        with configured(row["cfg"], sbx.roots, as_path=i % 2 == 1):
+        with configured(row["cfg"], sbx.roots, as_path=i % 2 == 1, as_instance=i % 3 == 2):
             finder = ComponentsFileSystemFinder()
             listed = [p for _, p in obs_list(finder, sbx)]
             lset = set(listed)
@@ -540,7 +547,7 @@ def record_session(rnd: random.Random, tid: int, sbx: Sandbox) -> Dict[str, Any]
            "f": {"set": False, "pats": []} if fo_name else flist,
            "fo": flist if fo_name else {"set": False, "pats": []}}
     events: List[Dict[str, Any]] = []
-    with configured(cfg, sbx.roots, as_path=tid % 2 == 0, last_is_app=bool(sbx.app)):
+    with configured(cfg, sbx.roots, as_path=tid % 2 == 0, last_is_app=bool(sbx.app), as_instance=tid % 3 == 1):
         finder = ComponentsFileSystemFinder()          # one finder for the whole session, as Django keeps it
 
         def observe() -> None:
